@@ -25,6 +25,8 @@ from ..translate import gen, oracles, zoo
 
 PROP = "C06"
 LEAN_TARGETS = ["SkaModel.Props.C06", "SkaModel.Gen.RngC06", "SkaModel.Gen.EffectsC05"]
+# theorems about, and the executable of, `check_random_state` translated from the current source of utils/_validation.py on every run
+GEN_TARGETS = ["SkaModel.Props.RngGen", "skarnggendriver"]
 LEVEL = "proof"
 RULE = (
     "cases: (exported class, configuration with an integer random_state, candidate mode, data seed); each case = a fresh "
@@ -42,6 +44,9 @@ TRUSTED = ["harness/translate (RNG site classification)", "numpy RandomState / s
 
 
 def generate(ctx):
+    from ..translate import pyrng
+
+    pyrng.generate(ctx)
     ctx.gen = gen.generate(PROP, ctx)
     # second generated module: the effect summaries of every pool `query` with the read-before-write analysis
     # (`query_<Class>_historyFree`): no fitted attribute carries state from one query into the next
@@ -218,6 +223,16 @@ def crs_correspondence(ctx, n_cases):
     for line, out, (impl, case) in zip(lines, outs, expect):
         if out.split() != impl.split():
             ctx.disagree("Ska.Rng.checkRandomState vs skactiveml.utils.check_random_state", dict(case, line=line), out, impl)
+    # the function translated from the current source (Gen/RngGen.lean) on the same calls
+    import os
+
+    if getattr(ctx, "gen_ok", False) and os.path.exists(vlib.RNGGENDRIVER):
+        gouts = vlib.run_driver(["g_" + l for l in lines], exe=vlib.RNGGENDRIVER)
+        for line, out, (impl, case) in zip(lines, gouts, expect):
+            ctx.count("generated_model_cases")
+            if out.split() != impl.split():
+                ctx.disagree("SkaModel.Gen.RngGen (translated from the current source) vs skactiveml.utils.check_random_state",
+                             dict(case, line="g_" + line), out, impl)
 
 
 def correspond(ctx):
